@@ -33,7 +33,7 @@ PROPS["C01"] = {
         "font save stack (inlined in run_impl)",
         "SaveStackMap::restore (writes each saved value back; consuming HashMap iteration)",
         "supported_type_impl! macro: the closures passed as map_getter",
-        "impl BackingContainer for Vec<Option<V>>: get and remove are proved; insert (Vec::resize_with) and get_mut are trusted declarations with the trait contract",
+        "impl BackingContainer for Vec<Option<V>>: get, remove and insert are proved (Vec::resize_with(n, Default::default) bound to a trusted stub, rule R19); get_mut is a trusted declaration with the trait contract",
         "\\def/\\let/\\countdef/\\catcode primitives' own parsing",
     ],
     "assumptions": ["Clone is the identity and the std hash/eq model holds for the key types (usize, char, CsName, TypedVariable)"],
